@@ -19,8 +19,13 @@ PROP = "C18"
 NAMES = ["index.wtml", "thumb.jpg", "L0X0Y0.png", "L1X1Y0.png", "zz_extra.txt", "aa_first.bin", "index_rel.wtml"]
 
 
-class InjectedCrash(Exception):
-    pass
+class InjectedCrash(BaseException):
+    """Process death at a chosen point: not an Exception, so no `except Exception:` in the code under test
+    can 'handle' it (a dead process handles nothing)."""
+
+
+class InjectedTransferError(OSError):
+    """A transfer that fails with an error the code under test may see and react to (connection reset)."""
 
 
 def content(uid, name):
@@ -44,9 +49,10 @@ class FaultyStore(object):
         self.n += 1
         self.log.append(tuple(path))
         if self.crash_at is not None and self.n == self.crash_at:
-            if self.mode == "before":
-                raise InjectedCrash("crash before transfer %d" % self.n)
-            if self.mode == "partial":
+            boom = (lambda m: InjectedTransferError(104, m)) if self.mode.startswith("error") else InjectedCrash
+            if self.mode in ("before", "error-before"):
+                raise boom("failure before transfer %d" % self.n)
+            if self.mode in ("partial", "error-partial"):
                 import io
 
                 # a transfer that dies half way: only the first half of the source has been read
@@ -57,7 +63,7 @@ class FaultyStore(object):
                     data = source.read()
                     data = data[: len(data) // 2]
                 self.inner.put_item(*path, source=io.BytesIO(data))
-                raise InjectedCrash("crash during transfer %d" % self.n)
+                raise boom("failure during transfer %d" % self.n)
             data = source.read()
             if self.mode == "after":
                 import io
@@ -170,10 +176,12 @@ def run_case(d, images, id_order, file_orders, crash_at, mode, rename_crash, par
     except InjectedCrash:
         crashed = True
     except Exception as e:
-        bad("publish-raises:%s" % type(e).__name__, repr(e))
-        return
+        if not (mode or "").startswith("error"):
+            bad("publish-raises:%s" % type(e).__name__, repr(e))
+            return
+        crashed = True  # a failed transfer reported in whatever form; what counts is the state left behind
     expect_crash = rename_crash or (crash_at is not None and crash_at <= sum(len(v) for v in images.values()))
-    if crashed != bool(expect_crash):
+    if crashed != bool(expect_crash) and not (mode or "").startswith("error"):
         bad("crash-not-reached", "crashed=%r expected %r (transfers made: %d)" % (crashed, expect_crash, fs.n))
     # transfer order: index.wtml strictly last among the files of its image
     per = {}
@@ -302,7 +310,7 @@ def gen_cases(tier):
             for perm in itertools.permutations(names):
                 faults = [(None, None, False), (None, None, True)]
                 for k in range(1, n + 1):
-                    for mode in ("before", "partial", "after"):
+                    for mode in ("before", "partial", "after", "error-before", "error-partial"):
                         faults.append((k, mode, False))
                 for crash_at, mode, rc in faults:
                     cases.append(({"img1": list(names)}, ["img1"], {"img1": list(perm)}, crash_at, mode, rc))
@@ -314,7 +322,7 @@ def gen_cases(tier):
             for pb in itertools.permutations(b):
                 faults = [(None, None, False), (None, None, True)]
                 for k in range(1, len(a) + len(b) + 1):
-                    for mode in ("before", "partial", "after"):
+                    for mode in ("before", "partial", "after", "error-partial"):
                         faults.append((k, mode, False))
                 for crash_at, mode, rc in faults:
                     cases.append(({"imgA": list(a), "imgB": list(b)}, ido, {"imgA": list(pa), "imgB": list(pb)}, crash_at, mode, rc))
@@ -371,7 +379,7 @@ def refresh_check(part):
     pipeline.IMAGE_SOURCE_CLASS_LOADERS["_verif_local"] = lambda: Src
     # a realistic file set: both index files, the thumbnail and a tile
     names = ["index.wtml", "index_rel.wtml", "thumb.jpg", "L0X0Y0.png"]
-    combos = [(None, None)] + [(k, m) for k in range(1, len(names) + 1) for m in ("before", "partial", "after")]
+    combos = [(None, None)] + [(k, m) for k in range(1, len(names) + 1) for m in ("before", "partial", "after", "error-partial")]
     with scratch("c18r") as d:
         for order in itertools.permutations(names):
           for crash_at, mode in combos:
@@ -388,6 +396,10 @@ def refresh_check(part):
                     mgr.publish()
             except InjectedCrash:
                 pass
+            except Exception as e:
+                if crash_at is None:
+                    part.violation("refresh/publish-raises:%s" % type(e).__name__, "%r: %r" % (cfg, e), cfg)
+                    continue
             st = store_state(store, "img1", names)
             complete = all(v == "complete" for v in st.values())
             # the property protects the *other* files: a torn index.wtml itself (everything else
@@ -406,11 +418,11 @@ def run(tier, seed):
     rep = Report(PROP, tier, seed, "fault_enumeration")
     rep.rule = (
         "every file set of size 1..%d (with/without index.wtml) x every listdir permutation x {no crash, crash before rename, crash at "
-        "transfer k in modes before/partial/after}; two approved images in both id orders; each followed by a fault-free re-run; "
+        "transfer k in modes before/partial/after (process death: not catchable) or error-before/error-partial (a transfer error the code may catch)}; two approved images in both id orders; each followed by a fault-free re-run; "
         "non-trivial = a crash was injected and the image has an index.wtml" % (5 if tier == "quick" else 7)
     )
     rep.assumptions = [
-        "a crash is an exception out of put_item / os.rename standing for process death; the store is LocalPipelineIo on a scratch directory",
+        "a crash is a BaseException out of put_item / os.rename standing for process death; a transfer error is an OSError out of put_item; the store is LocalPipelineIo on a scratch directory",
         "torn write = a strict prefix (half) of the file's bytes",
     ]
     cases = rng_order(gen_cases(tier), seed)
